@@ -33,7 +33,11 @@ if os.path.exists('seeded/MATRIX.txt'):
             matrix[parts[0]] = {x.split(':')[0]: int(x.split(':')[1]) for x in parts[1:]}
 # confirmed breaking changes that no check reports (see DESIGN.md 14.3): kept, with no expectation, so that the record is honest
 NOT_DETECTED = {'seeded/C15-r3-change1/patch.diff': 'needs std::bad_alloc between two allocations: exceptions from allocation failure are not modelled'}
-json.dump(NOT_DETECTED, open('seeded/NOT_DETECTED.json', 'w'), indent=1)
+# confirmed breaking changes on which the own check gives up (exit 2: neither a pass nor a violation), see DESIGN.md 14.5
+DECLINED = {'seeded/C09-r5-change1/patch.diff': ('C09', 'the zero-byte mask is a 32-bit subtraction over packed bytes: outside the byte-term language, R09.e/R09.d undecided'),
+            'seeded/C09-r5-change2/patch.diff': ('C09', 'memcmp on block bytes against a cache member: outside the term language; R09.m names the member and stays undecided')}
+json.dump({'not_detected': NOT_DETECTED, 'declined_exit_2': {k: {'property': v[0], 'why': v[1]} for k, v in DECLINED.items()}},
+          open('seeded/NOT_DETECTED.json', 'w'), indent=1)
 for d in sorted(glob.glob('seeded/*/patch.diff')):
     if d in NOT_DETECTED:
         idx[d] = {}
@@ -41,6 +45,8 @@ for d in sorted(glob.glob('seeded/*/patch.diff')):
     name = os.path.basename(os.path.dirname(d))
     own = name.split('-')[0]
     exp = {own: 1}
+    if d in DECLINED and os.path.exists(d):
+        exp = {DECLINED[d][0]: 2}
     for q, c in matrix.get(name + '/patch.diff', {}).items():
         if c == 1:
             exp[q] = 1
@@ -50,6 +56,13 @@ AREA = {'aes': ['C02', 'C03', 'C09', 'C10', 'C14'], 'cli': ['C12', 'C15', 'C16',
         'hash': ['C05', 'C07', 'C08', 'C11'], 'hbuf': ['C05', 'C07', 'C08'], 'pipeline': ['C01', 'C03', 'C04', 'C11', 'C14', 'C15']}
 AREA.update({'cli2': AREA['cli'], 'driver2': AREA['driver'] + ['C01', 'C14'], 'group2': AREA['pipeline'], 'b642': ['C16', 'C17'],
              'hash2': AREA['hash'] + ['C18'], 'aes2': AREA['aes'] + ['C11'], 'hdr2': ['C02', 'C05', 'C06', 'C08', 'C11', 'C12', 'C13', 'C18']})
+AREA['cli'] = AREA['cli'] + ['C06', 'C18']
+AREA['cli2'] = AREA['cli']
+AREA['driver'] = AREA['driver'] + ['C04']
+AREA['driver2'] = AREA['driver2'] + ['C04']
+AREA['hdr2'] = AREA['hdr2'] + ['C04']
+AREA.update({'cli3': AREA['cli'], 'driver3': AREA['driver2'], 'pipe3': AREA['pipeline'] + ['C12'], 'hash3': AREA['hash2'] + ['C04', 'C06'],
+             'aes3': AREA['aes2']})
 # refactorings the present analysis cannot follow (the check answers ANALYSIS-BROKEN, exit 2, not a violation): kept out of the replay
 SKIP = set()
 for d in sorted(glob.glob('equiv/*/patch.diff')):
